@@ -134,6 +134,11 @@ func wantKindMethod(af *ast.File, method, goRes string) {
 		singleIntParam(fd, 0)
 		wantResults(fd, k+"."+method, goRes)
 	}
+	wantKindDecls(af)
+}
+
+// wantKindDecls: the declarations of the seven kinds are the ones the model's `Loc` mirrors
+func wantKindDecls(af *ast.File) {
 	if got := structText(af, "Complemented"); got != "Location Location" {
 		refuse("location.go: struct Complemented is %q", got)
 	}
@@ -408,7 +413,7 @@ func genLocComplete(repo string) (text string, err error) {
 	if perr != nil {
 		return "", perr
 	}
-	wantKindMethod(af, "Len", "int") // the declarations of the kinds
+	wantKindDecls(af)
 	fd := findFunc(af, "asComplete")
 	if fd == nil || fd.Body == nil {
 		refuse("location.go: asComplete not found")
@@ -653,7 +658,7 @@ func genLocStrand(repo string) (text string, err error) {
 	if perr != nil {
 		return "", perr
 	}
-	wantKindMethod(af, "Len", "int") // the declarations of the kinds
+	wantKindDecls(af)
 	consts := strandConsts(af)
 	for _, c := range []string{"StrandBoth", "StrandForward", "StrandReverse"} {
 		if _, ok := consts[c]; !ok || len(consts) != 3 {
